@@ -47,7 +47,8 @@ Lemma zlen_nonneg s : (0 <= zlen s)%Z.
 Proof. unfold zlen. lia. Qed.
 
 (* deciding the integer tests of [tsh_sub] from the hypotheses *)
-Ltac ztest b v := replace b with v by (unfold zlen in *; lia); cbv iota; cbn [orb andb].
+Ltac ztest b v :=
+  replace b with v by (unfold zlen in *; cbn [length] in *; lia); cbv iota; cbn [orb andb].
 
 (* s[lo:hi] with 0 <= lo <= hi and lo <= len(s) *)
 Lemma tsh_sub_mid s lo hi :
@@ -429,9 +430,9 @@ Proof.
   rewrite count_matches_S, find_first_skip by exact E.
   destruct (find_first sub r) as [[b a]|] eqn:F.
   - pose proof (find_first_length _ _ _ _ F) as Hlen.
-    destruct (length r) as [|m] eqn:El; [lia|]. rewrite count_matches_S, F. f_equal.
+    destruct (length r) as [|m] eqn:El; [lia|]. rewrite (count_matches_S m sub r), F. f_equal.
     apply count_matches_fuel; [exact Hne|lia|lia].
-  - destruct (length r) as [|m]; [reflexivity|]. rewrite count_matches_S, F. reflexivity.
+  - destruct (length r) as [|m]; [reflexivity|]. rewrite (count_matches_S m sub r), F. reflexivity.
 Qed.
 
 Lemma count_loop_spec s substr :
@@ -477,3 +478,665 @@ Proof.
   rewrite (count_loop_spec s (d :: p) ltac:(discriminate) (S (length s)) 0 s 0%Z eq_refl (Nat.lt_succ_diag_r _)).
   reflexivity.
 Qed.
+
+(* ------------------------------------------------------------------ *)
+(* TrimLeft, TrimRight, Trim, TrimSpace                                 *)
+
+(* CutPrefix with a one-byte prefix *)
+Definition cut1 (c : N) (s : bytes) : bytes * bool :=
+  match s with
+  | x :: r => if x =? c then (r, true) else (s, false)
+  | [] => ([], false)
+  end.
+
+(* one round of the inner loop over the bytes [cs] of the cutset *)
+Fixpoint pass (cs : bytes) (s : bytes) (tr : bool) : bytes * bool :=
+  match cs with
+  | [] => (s, tr)
+  | c :: cs' => let '(s', cut) := cut1 c s in pass cs' s' (if cut then true else tr)
+  end.
+
+Lemma drop_while_head_out cutset t :
+  (forall c, In c cutset -> hd_is c t = false) -> drop_while (in_cutset cutset) t = t.
+Proof.
+  intros H. destruct t as [|x t]; [reflexivity|]. cbn [drop_while]. unfold in_cutset.
+  destruct (existsb (N.eqb x) cutset) eqn:E; [|reflexivity].
+  apply existsb_exists in E as [c [Hin Heq]]. specialize (H c Hin). cbn [hd_is] in H. congruence.
+Qed.
+
+Lemma pass_spec cutset :
+  forall (cs s : bytes) (tr : bool),
+    (forall c, In c cs -> in_cutset cutset c = true) ->
+    let '(r, b) := pass cs s tr in
+    drop_while (in_cutset cutset) r = drop_while (in_cutset cutset) s /\
+    (b = false -> tr = false /\ r = s /\ forall c, In c cs -> hd_is c s = false) /\
+    (b = true -> tr = false -> (length r < length s)%nat) /\
+    (length r <= length s)%nat.
+Proof.
+  induction cs as [|c cs IH]; intros s tr Hin; cbn [pass].
+  - split; [reflexivity|]. split; [|split; [intros H1 H2; congruence|lia]].
+    intros H. split; [exact H|]. split; [reflexivity|]. intros c [].
+  - assert (Hc : in_cutset cutset c = true) by (apply Hin; left; reflexivity).
+    assert (Hin' : forall c0, In c0 cs -> in_cutset cutset c0 = true)
+      by (intros c0 H0; apply Hin; right; exact H0).
+    unfold cut1. destruct s as [|x r0].
+    + specialize (IH [] tr Hin'). destruct (pass cs [] tr) as [r b].
+      destruct IH as [I1 [I2 [I3 I4]]]. split; [exact I1|]. split; [|split; assumption].
+      intros Hb. destruct (I2 Hb) as [J1 [J2 J3]]. split; [exact J1|]. split; [exact J2|].
+      intros c0 _. reflexivity.
+    + destruct (x =? c) eqn:Exc.
+      * apply N.eqb_eq in Exc. subst x.
+        specialize (IH r0 true Hin'). destruct (pass cs r0 true) as [r b].
+        destruct IH as [I1 [I2 [I3 I4]]]. cbn [drop_while length]. rewrite Hc.
+        split; [exact I1|]. split; [|split; [intros; lia|lia]].
+        intros Hb. destruct (I2 Hb) as [J1 _]. discriminate.
+      * specialize (IH (x :: r0) tr Hin'). destruct (pass cs (x :: r0) tr) as [r b].
+        destruct IH as [I1 [I2 [I3 I4]]]. split; [exact I1|]. split; [|split; assumption].
+        intros Hb. destruct (I2 Hb) as [J1 [J2 J3]]. split; [exact J1|]. split; [exact J2|].
+        intros c0 [H0|H0]; [subst c0; cbn [hd_is]; exact Exc|apply J3; exact H0].
+Qed.
+
+Section TrimFacts.
+  Variable cutfn : bytes -> bytes -> option (bytes * bool).
+  Variable view : bytes -> bytes.
+  Hypothesis view_invol : forall s, view (view s) = s.
+  Hypothesis view_length : forall s, length (view s) = length s.
+  Hypothesis cutfn_one :
+    forall s c, cutfn s [c] = Some (let '(r, b) := cut1 c (view s) in (view r, b)).
+
+  Lemma trim_inner_spec cutset :
+    forall (cs pre : bytes) (fuel : nat) (s : bytes) (tr : bool),
+      cutset = pre ++ cs -> (length cs < fuel)%nat ->
+      trim_inner cutfn fuel cutset (zlen cutset) (Z.of_nat (length pre)) s tr
+      = Some (let '(r, b) := pass cs (view s) tr in (view r, b)).
+  Proof.
+    induction cs as [|c cs IH]; intros pre fuel s tr Hcs Hf.
+    - destruct fuel as [|fuel]; [lia|]. cbn [trim_inner pass].
+      rewrite app_nil_r in Hcs. subst pre. unfold zlen. rewrite Z.ltb_irrefl.
+      rewrite view_invol. reflexivity.
+    - destruct fuel as [|fuel]; [lia|]. cbn [trim_inner pass].
+      assert (Hlen : length cutset = (length pre + S (length cs))%nat)
+        by (subst cutset; rewrite app_length; reflexivity).
+      ztest (Z.of_nat (length pre) <? zlen cutset)%Z true.
+      rewrite tsh_at_nonneg by lia. rewrite Nat2Z.id.
+      replace (skipn (length pre) cutset) with (c :: cs)
+        by (subst cutset; rewrite skipn_app_exact; reflexivity).
+      cbn [firstn]. cbv iota beta. rewrite cutfn_one.
+      destruct (cut1 c (view s)) as [r b]. cbv iota beta.
+      replace (Z.of_nat (length pre) + 1)%Z with (Z.of_nat (length (pre ++ [c])))
+        by (rewrite app_length; cbn [length]; lia).
+      rewrite (IH (pre ++ [c]) fuel (view r) (if b then true else tr)).
+      + rewrite view_invol. reflexivity.
+      + rewrite <- app_assoc. exact Hcs.
+      + cbn [length] in Hf. lia.
+  Qed.
+
+  Lemma trim_outer_spec cutset :
+    forall (fuel : nat) (s : bytes),
+      (length s < fuel)%nat ->
+      trim_outer cutfn fuel cutset (zlen cutset) s
+      = Some (view (drop_while (in_cutset cutset) (view s))).
+  Proof.
+    induction fuel as [|fuel IH]; intros s Hf; [lia|]. cbn [trim_outer].
+    change 0%Z with (Z.of_nat (length (@nil N))).
+    rewrite (trim_inner_spec cutset cutset [] (S (length cutset)) s false eq_refl (Nat.lt_succ_diag_r _)).
+    pose proof (pass_spec cutset cutset (view s) false) as Hp.
+    destruct (pass cutset (view s) false) as [r b]. cbv iota beta.
+    destruct Hp as [P1 [P2 [P3 P4]]].
+    { intros c Hc. unfold in_cutset. apply existsb_exists. exists c. split; [exact Hc|apply N.eqb_refl]. }
+    destruct b; cbn [negb].
+    - rewrite IH.
+      + rewrite view_invol, P1. reflexivity.
+      + rewrite view_length. specialize (P3 eq_refl eq_refl). rewrite view_length in P3. lia.
+    - destruct (P2 eq_refl) as [_ [Hr Hh]]. subst r.
+      rewrite (drop_while_head_out _ _ Hh). reflexivity.
+  Qed.
+
+  Lemma trim_with_spec s cutset :
+    trim_with cutfn s cutset = Some (view (drop_while (in_cutset cutset) (view s))).
+  Proof.
+    unfold trim_with.
+    destruct (Z.gtb_spec (zlen s) 0) as [Hs|Hs]; cbn [andb].
+    - destruct (Z.gtb_spec (zlen cutset) 0) as [Hc|Hc].
+      + apply trim_outer_spec. lia.
+      + destruct cutset as [|c cs]; [|unfold zlen in Hc; cbn [length] in Hc; lia].
+        rewrite drop_while_head_out by (intros c []). rewrite view_invol. reflexivity.
+    - destruct s as [|x s]; [|unfold zlen in Hs; cbn [length] in Hs; lia].
+      assert (Hv : view [] = []).
+      { pose proof (view_length []) as Hl. destruct (view []); [reflexivity|discriminate]. }
+      rewrite Hv. cbn [drop_while]. rewrite Hv. reflexivity.
+  Qed.
+End TrimFacts.
+
+Lemma go_cut_prefix_one s c : go_cut_prefix s [c] = cut1 c s.
+Proof.
+  unfold go_cut_prefix, cut1. destruct s as [|x r]; [reflexivity|].
+  cbn [strip_prefix]. rewrite (N.eqb_sym c x). destruct (x =? c); reflexivity.
+Qed.
+
+Lemma go_cut_suffix_rev s p :
+  go_cut_suffix s p = let '(r, b) := go_cut_prefix (rev s) (rev p) in (rev r, b).
+Proof.
+  unfold go_cut_suffix, go_cut_prefix.
+  destruct (go_has_suffix s p) eqn:E.
+  - apply go_has_suffix_true in E as [a Ha]. subst s.
+    rewrite rev_app_distr, strip_prefix_app, rev_involutive.
+    rewrite app_length. replace (length a + length p - length p)%nat with (length a) by lia.
+    rewrite firstn_app_exact. reflexivity.
+  - destruct (strip_prefix (rev p) (rev s)) as [r|] eqn:F; [|rewrite rev_involutive; reflexivity].
+    apply strip_prefix_some in F.
+    assert (Hs : go_has_suffix s p = true).
+    { apply go_has_suffix_true. exists (rev r).
+      rewrite <- (rev_involutive s), F, rev_app_distr, rev_involutive. reflexivity. }
+    congruence.
+Qed.
+
+Theorem lib_trim_left_correct s cutset :
+  lib_trim_left s cutset = Some (go_trim_left s cutset).
+Proof.
+  unfold lib_trim_left, go_trim_left.
+  apply (trim_with_spec lib_cut_prefix (fun x => x)); try reflexivity.
+  intros s0 c. rewrite lib_cut_prefix_correct, go_cut_prefix_one.
+  destruct (cut1 c s0); reflexivity.
+Qed.
+
+Theorem lib_trim_right_correct s cutset :
+  lib_trim_right s cutset = Some (go_trim_right s cutset).
+Proof.
+  unfold lib_trim_right, go_trim_right, drop_while_end.
+  apply (trim_with_spec lib_cut_suffix (@rev N)).
+  - apply rev_involutive.
+  - apply rev_length.
+  - intros s0 c. rewrite lib_cut_suffix_correct, go_cut_suffix_rev.
+    change (rev [c]) with [c]. rewrite go_cut_prefix_one. reflexivity.
+Qed.
+
+Theorem lib_trim_correct s cutset :
+  lib_trim s cutset = Some (go_trim s cutset).
+Proof.
+  unfold lib_trim, go_trim. rewrite lib_trim_left_correct. apply lib_trim_right_correct.
+Qed.
+
+Lemma drop_while_ext (p q : N -> bool) s :
+  (forall c, p c = q c) -> drop_while p s = drop_while q s.
+Proof.
+  intros H. induction s as [|c r IH]; [reflexivity|]. cbn [drop_while]. rewrite H, IH. reflexivity.
+Qed.
+
+Theorem lib_trim_space_correct s :
+  lib_trim_space s = Some (go_trim_space s).
+Proof.
+  unfold lib_trim_space. rewrite lib_trim_correct.
+  unfold go_trim, go_trim_space, go_trim_right, go_trim_left, drop_while_end.
+  assert (H : forall c, in_cutset [9; 10; 11; 12; 13; 32] c = is_go_space c).
+  { intros c. unfold in_cutset, is_go_space. cbn [existsb]. rewrite orb_false_r.
+    rewrite !orb_assoc. reflexivity. }
+  rewrite (drop_while_ext _ _ s H).
+  rewrite (drop_while_ext _ _ (rev (drop_while is_go_space s)) H). reflexivity.
+Qed.
+
+(* ------------------------------------------------------------------ *)
+(* Replace, ReplaceAll                                                  *)
+
+(* old = "": what the loop still has to produce at the rest [t] of s when [k]
+   replacements are left *)
+Definition rest_empty (k : nat) (new t : bytes) : bytes :=
+  match t with [] => [] | c :: r => c :: replace_empty k new r end.
+
+Lemma replace_loop_empty s new n :
+  forall (t : bytes) (i fuel : nat) (res : bytes) (rep : Z) (k : nat),
+    skipn i s = t -> (i <= length s)%nat -> (length t < fuel)%nat ->
+    ((n < 0)%Z /\ (length t <= k)%nat) \/ ((0 <= n)%Z /\ k = Z.to_nat (n - rep)) ->
+    exists (res' : bytes) (i' : nat),
+      replace_loop fuel s [] new n 0%Z res rep (Z.of_nat i) = Some (res', Z.of_nat i') /\
+      (i' <= length s)%nat /\
+      res' ++ skipn i' s = res ++ rest_empty k new t.
+Proof.
+  induction t as [|c r IH]; intros i fuel res rep k Ht Hi Hf Hk.
+  - destruct fuel as [|fuel]; [lia|]. cbn [replace_loop].
+    apply skipn_nil_inv in Ht as Hge. ztest (Z.of_nat i <? zlen s)%Z false.
+    exists res, i. split; [reflexivity|]. split; [exact Hi|]. rewrite Ht. reflexivity.
+  - destruct fuel as [|fuel]; [lia|]. cbn [replace_loop].
+    destruct (skipn_cons_inv _ _ _ _ Ht) as [Ht' Hlt].
+    ztest (Z.of_nat i <? zlen s)%Z true.
+    destruct ((rep <? n)%Z || (n <? 0)%Z) eqn:Ec.
+    + rewrite tsh_at_nonneg by lia. rewrite Nat2Z.id, Ht. cbn [firstn]. cbv iota beta.
+      change (0 =? 0)%Z with true. cbv iota.
+      assert (Hk' : exists k', k = S k').
+      { destruct k as [|k']; [|exists k'; reflexivity]. exfalso.
+        destruct Hk as [[H1 H2]|[H1 H2]]; [cbn [length] in H2; lia|lia]. }
+      destruct Hk' as [k' ->].
+      replace (Z.of_nat i + 1)%Z with (Z.of_nat (S i)) by lia.
+      destruct (IH (S i) fuel (res ++ [c] ++ new) (rep + 1)%Z k' Ht') as [res' [i' [L1 [L2 L3]]]].
+      { lia. } { cbn [length] in Hf. lia. }
+      { destruct Hk as [[H1 H2]|[H1 H2]]; [left; cbn [length] in H2; lia|right; lia]. }
+      exists res', i'. split; [exact L1|]. split; [exact L2|]. rewrite L3.
+      unfold rest_empty at 2. cbn [replace_empty]. fold (rest_empty k' new r).
+      rewrite <- !app_assoc. reflexivity.
+    + assert (k = 0)%nat by (destruct Hk as [[H1 H2]|[H1 H2]]; lia). subst k.
+      exists res, i. split; [reflexivity|]. split; [exact Hi|]. rewrite Ht. reflexivity.
+Qed.
+
+Lemma replace_matches_nil k old new : old <> [] -> replace_matches k old new [] = [].
+Proof. intros H. destruct k as [|k]; [reflexivity|]. cbn [replace_matches]. rewrite find_first_nil by exact H. reflexivity. Qed.
+
+Lemma replace_skip k old new c r :
+  has_prefix old (c :: r) = false ->
+  replace_matches k old new (c :: r) = c :: replace_matches k old new r.
+Proof.
+  intros E. destruct k as [|k]; [reflexivity|]. cbn [replace_matches].
+  rewrite (find_first_skip _ _ _ E). destruct (find_first old r) as [[b a]|]; reflexivity.
+Qed.
+
+Lemma replace_loop_nonempty s old new n :
+  old <> [] ->
+  forall (fuel i : nat) (t res : bytes) (rep : Z) (k : nat),
+    skipn i s = t -> (i <= length s)%nat -> (length t < fuel)%nat ->
+    ((n < 0)%Z /\ (length t <= k)%nat) \/ ((0 <= n)%Z /\ k = Z.to_nat (n - rep)) ->
+    exists (res' : bytes) (i' : nat),
+      replace_loop fuel s old new n (zlen old) res rep (Z.of_nat i) = Some (res', Z.of_nat i') /\
+      (i' <= length s)%nat /\
+      res' ++ skipn i' s = res ++ replace_matches k old new t.
+Proof.
+  intros Hne. assert (Hl : (0 < length old)%nat) by (destruct old; [congruence|cbn [length]; lia]).
+  induction fuel as [|fuel IH]; intros i t res rep k Ht Hi Hf Hk; [lia|]. cbn [replace_loop].
+  destruct t as [|c r].
+  - apply skipn_nil_inv in Ht as Hge. ztest (Z.of_nat i <? zlen s)%Z false.
+    exists res, i. split; [reflexivity|]. split; [exact Hi|]. rewrite Ht.
+    rewrite replace_matches_nil by exact Hne. reflexivity.
+  - destruct (skipn_cons_inv _ _ _ _ Ht) as [Ht' Hlt].
+    ztest (Z.of_nat i <? zlen s)%Z true.
+    destruct ((rep <? n)%Z || (n <? 0)%Z) eqn:Ec.
+    + rewrite tsh_at_nonneg by lia. rewrite Nat2Z.id, Ht. cbn [firstn]. cbv iota beta.
+      ztest (zlen old =? 0)%Z false.
+      rewrite tsh_sub_from by (unfold zlen; lia). rewrite Nat2Z.id, Ht.
+      rewrite lib_has_prefix_correct. unfold go_has_prefix. cbv iota beta.
+      assert (Hk' : exists k', k = S k').
+      { destruct k as [|k']; [|exists k'; reflexivity]. exfalso.
+        destruct Hk as [[H1 H2]|[H1 H2]]; [cbn [length] in H2; lia|lia]. }
+      destruct Hk' as [k' ->].
+      destruct (has_prefix old (c :: r)) eqn:E.
+      * pose proof (has_prefix_length _ _ E) as Hle.
+        assert (Hrl : length (skipn (length old) (c :: r)) = (length (c :: r) - length old)%nat)
+          by apply skipn_length.
+        assert (Hsl : length (c :: r) = (length s - i)%nat) by (rewrite <- Ht; apply skipn_length).
+        cbn [length] in Hle, Hrl, Hf, Hsl.
+        replace (Z.of_nat i + zlen old)%Z with (Z.of_nat (i + length old)) by (unfold zlen; lia).
+        destruct (IH (i + length old)%nat (skipn (length old) (c :: r)) (res ++ new) (rep + 1)%Z k')
+          as [res' [i' [L1 [L2 L3]]]].
+        { rewrite <- Ht. apply eq_sym, skipn_skipn_add. } { lia. } { lia. }
+        { destruct Hk as [[H1 H2]|[H1 H2]]; [left; cbn [length] in H2; lia|right; lia]. }
+        exists res', i'. split; [exact L1|]. split; [exact L2|]. rewrite L3.
+        cbn [replace_matches]. rewrite (find_first_match _ _ E). cbn [app].
+        rewrite <- app_assoc. reflexivity.
+      * replace (Z.of_nat i + 1)%Z with (Z.of_nat (S i)) by lia.
+        destruct (IH (S i) r (res ++ [c]) rep (S k') Ht') as [res' [i' [L1 [L2 L3]]]].
+        { lia. } { cbn [length] in Hf. lia. }
+        { destruct Hk as [[H1 H2]|[H1 H2]]; [left; cbn [length] in H2; lia|right; lia]. }
+        exists res', i'. split; [exact L1|]. split; [exact L2|]. rewrite L3.
+        rewrite (replace_skip _ _ _ _ _ E). rewrite <- app_assoc. reflexivity.
+    + assert (k = 0)%nat by (destruct Hk as [[H1 H2]|[H1 H2]]; lia). subst k.
+      exists res, i. split; [reflexivity|]. split; [exact Hi|]. rewrite Ht. reflexivity.
+Qed.
+
+Theorem lib_replace_correct s old new n :
+  lib_replace s old new n = Some (go_replace s old new n).
+Proof.
+  unfold lib_replace, go_replace. cbv zeta.
+  destruct old as [|d p].
+  - change (zlen []) with 0%Z. change (0 =? 0)%Z with true. cbn [andb].
+    destruct (Z.eqb_spec n 0) as [Hn|Hn]; cbn [negb].
+    + subst n. change (0 <? 0)%Z with false. cbv iota. change (Z.to_nat 0) with 0%nat.
+     
+      destruct (replace_loop_empty s new 0%Z s 0 (S (length s)) [] 0%Z 0%nat eq_refl)
+        as [res' [i' [L1 [L2 L3]]]]; [lia|lia|right; lia|].
+      change (Z.of_nat 0) with 0%Z in L1. rewrite L1. cbv iota beta.
+      rewrite tsh_sub_from by (unfold zlen; lia). rewrite Nat2Z.id, L3.
+      destruct s; reflexivity.
+    + change (0 + 1)%Z with 1%Z.
+      set (k := if (n <? 0)%Z then S (length s) else Z.to_nat n).
+      assert (Hk : exists k', k = S k' /\
+                 (((n < 0)%Z /\ (length s <= k')%nat) \/ ((0 <= n)%Z /\ k' = Z.to_nat (n - 1)))).
+      { unfold k. destruct (Z.ltb_spec n 0) as [H|H].
+        - exists (length s). split; [reflexivity|left; lia].
+        - exists (Z.to_nat (n - 1)). split; [lia|right; lia]. }
+      destruct Hk as [k' [-> Hk']].
+      destruct (replace_loop_empty s new n s 0 (S (length s)) new 1%Z k' eq_refl)
+        as [res' [i' [L1 [L2 L3]]]]; [lia|lia|exact Hk'|].
+      change (Z.of_nat 0) with 0%Z in L1. rewrite L1. cbv iota beta.
+      rewrite tsh_sub_from by (unfold zlen; lia). rewrite Nat2Z.id, L3.
+      destruct s; reflexivity.
+  - ztest (zlen (d :: p) =? 0)%Z false.
+   
+    set (k := if (n <? 0)%Z then S (length s) else Z.to_nat n).
+    destruct (replace_loop_nonempty s (d :: p) new n ltac:(discriminate) (S (length s)) 0 s [] 0%Z k eq_refl)
+      as [res' [i' [L1 [L2 L3]]]]; [lia|lia| |].
+    { unfold k. destruct (Z.ltb_spec n 0) as [H|H]; [left; lia|right; split; [lia|f_equal; lia]]. }
+    change (Z.of_nat 0) with 0%Z in L1. rewrite L1. cbv iota beta.
+    rewrite tsh_sub_from by (unfold zlen; lia). rewrite Nat2Z.id, L3. reflexivity.
+Qed.
+
+Theorem lib_replace_all_correct s old new :
+  lib_replace_all s old new = Some (go_replace_all s old new).
+Proof. apply lib_replace_correct. Qed.
+
+(* ------------------------------------------------------------------ *)
+(* Split                                                                *)
+
+Lemma slice_set_append (elems : list bytes) v :
+  slice_set elems (Z.of_nat (length elems)) v = Some (elems ++ [v]).
+Proof.
+  unfold slice_set. ztest (Z.of_nat (length elems) <? 0)%Z false.
+  rewrite Nat2Z.id, Nat.ltb_irrefl, Nat.sub_diag. reflexivity.
+Qed.
+
+(* sep = "": one element per byte *)
+Lemma split_loop_empty s :
+  forall (t : bytes) (e fuel : nat) (elems : list bytes),
+    skipn e s = t -> (e <= length s)%nat -> (S (length t) < fuel)%nat -> length elems = e ->
+    exists (st ei : Z),
+      split_loop fuel s [] 0%Z (zlen s) (Z.of_nat e) (Z.of_nat e) (Z.of_nat e) elems
+      = Some (st, ei, elems ++ map (fun c => [c]) t).
+Proof.
+  induction t as [|c r IH]; intros e fuel elems Ht He Hf Hl.
+  - destruct fuel as [|fuel]; [lia|]. cbn [split_loop].
+    apply skipn_nil_inv in Ht as Hge.
+    ztest (Z.of_nat e <=? zlen s)%Z true.
+    rewrite tsh_sub_mid by (unfold zlen; lia).
+    replace (Z.to_nat (Z.of_nat e + 0 - Z.of_nat e)) with 0%nat by lia. cbn [firstn beq]. cbv iota beta.
+    change (0 =? 0)%Z with true. cbv iota. cbn [negb orb].
+    ztest (Z.of_nat e + 1 <=? zlen s)%Z false.
+    destruct fuel as [|fuel]; [cbn [length] in Hf; lia|]. cbn [split_loop].
+    ztest (Z.of_nat e + 1 <=? zlen s)%Z false.
+    eexists. eexists. cbn [map]. rewrite app_nil_r. reflexivity.
+  - destruct fuel as [|fuel]; [lia|]. cbn [split_loop].
+    destruct (skipn_cons_inv _ _ _ _ Ht) as [Ht' Hlt].
+    ztest (Z.of_nat e <=? zlen s)%Z true.
+    rewrite tsh_sub_mid by (unfold zlen; lia).
+    replace (Z.to_nat (Z.of_nat e + 0 - Z.of_nat e)) with 0%nat by lia. cbn [firstn beq]. cbv iota beta.
+    change (0 =? 0)%Z with true. cbv iota. cbn [negb orb].
+    ztest (Z.of_nat e + 1 <=? zlen s)%Z true.
+    rewrite tsh_sub_mid by (unfold zlen; lia).
+    replace (Z.to_nat (Z.of_nat e + 1 - Z.of_nat e)) with 1%nat by lia.
+    rewrite Nat2Z.id, Ht. cbn [firstn]. cbv iota beta.
+    replace (slice_set elems (Z.of_nat e) [c]) with (Some (elems ++ [[c]]))
+      by (rewrite <- Hl; symmetry; apply slice_set_append).
+    cbv iota beta.
+    rewrite Z.add_0_r. replace (Z.of_nat e + 1)%Z with (Z.of_nat (S e)) by lia.
+    destruct (IH (S e) fuel (elems ++ [[c]]) Ht') as [st [ei L]].
+    { lia. } { cbn [length] in Hf. lia. } { rewrite app_length. cbn [length]. lia. }
+    exists st, ei. rewrite L. cbn [map]. rewrite <- app_assoc. reflexivity.
+Qed.
+
+Lemma split_matches_fuel sep :
+  sep <> [] ->
+  forall (k1 k2 : nat) (s : bytes),
+    (length s <= k1)%nat -> (length s <= k2)%nat ->
+    split_matches k1 sep s = split_matches k2 sep s.
+Proof.
+  intros Hne. assert (Hl : (0 < length sep)%nat) by (destruct sep; [congruence|cbn [length]; lia]).
+  induction k1 as [|k1 IH]; intros k2 s H1 H2.
+  - destruct s as [|x s]; [|cbn [length] in H1; lia].
+    destruct k2 as [|k2]; [reflexivity|]. cbn [split_matches]. rewrite find_first_nil by exact Hne. reflexivity.
+  - destruct k2 as [|k2].
+    + destruct s as [|x s]; [|cbn [length] in H2; lia].
+      cbn [split_matches]. rewrite find_first_nil by exact Hne. reflexivity.
+    + cbn [split_matches]. destruct (find_first sep s) as [[b a]|] eqn:E; [|reflexivity].
+      apply find_first_length in E. f_equal. apply IH; lia.
+Qed.
+
+(* the split of u ++ t when no occurrence of sep starts inside u *)
+Definition tailsplit (sep u t : bytes) : list bytes :=
+  match find_first sep t with
+  | None => [u ++ t]
+  | Some (b, a) => (u ++ b) :: split_matches (length a) sep a
+  end.
+
+Lemma split_unfold sep t :
+  sep <> [] -> split_matches (length t) sep t = tailsplit sep [] t.
+Proof.
+  intros Hne. assert (Hl : (0 < length sep)%nat) by (destruct sep; [congruence|cbn [length]; lia]).
+  unfold tailsplit. destruct (length t) as [|m] eqn:El.
+  - destruct t; [|discriminate]. cbn [split_matches]. rewrite find_first_nil by exact Hne. reflexivity.
+  - cbn [split_matches]. destruct (find_first sep t) as [[b a]|] eqn:E; [|reflexivity].
+    apply find_first_length in E. cbn [app]. f_equal.
+    apply split_matches_fuel; [exact Hne|lia|lia].
+Qed.
+
+Lemma find_first_short sep t : (length t < length sep)%nat -> find_first sep t = None.
+Proof.
+  intros H. destruct (find_first sep t) as [[b a]|] eqn:E; [|reflexivity].
+  apply find_first_length in E. lia.
+Qed.
+
+Lemma firstn_S_skipn (n : nat) (w : bytes) c r :
+  skipn n w = c :: r -> firstn (S n) w = firstn n w ++ [c].
+Proof.
+  revert w. induction n as [|n IH]; intros w H.
+  - cbn [skipn] in H. subst w. reflexivity.
+  - destruct w as [|x w]; [discriminate|]. cbn [skipn] in H.
+    change (firstn (S (S n)) (x :: w)) with (x :: firstn (S n) w).
+    rewrite (IH w H). reflexivity.
+Qed.
+
+Lemma split_loop_nonempty s sep :
+  sep <> [] ->
+  forall (fuel e a : nat) (elems : list bytes) (t : bytes),
+    skipn e s = t -> (a <= e)%nat -> (e <= length s)%nat -> (length t < fuel)%nat ->
+    exists (a' : nat) (elems' : list bytes),
+      split_loop fuel s sep (zlen sep) (zlen s - zlen sep)%Z
+                 (Z.of_nat a) (Z.of_nat e) (Z.of_nat (length elems)) elems
+      = Some (Z.of_nat a', Z.of_nat (length elems'), elems') /\
+      (a' <= length s)%nat /\
+      elems' ++ [skipn a' s] = elems ++ tailsplit sep (firstn (e - a) (skipn a s)) t.
+Proof.
+  intros Hne. assert (Hl : (0 < length sep)%nat) by (destruct sep; [congruence|cbn [length]; lia]).
+  induction fuel as [|fuel IH]; intros e a elems t Ht Hae He Hf; [lia|]. cbn [split_loop].
+  assert (Htl : length t = (length s - e)%nat) by (rewrite <- Ht; apply skipn_length).
+  assert (Hu : firstn (e - a) (skipn a s) ++ t = skipn a s).
+  { rewrite <- Ht. replace e with (a + (e - a))%nat at 2 by lia.
+    rewrite <- skipn_skipn_add. apply firstn_skipn. }
+  destruct (Z.leb_spec (Z.of_nat e) (zlen s - zlen sep)) as [Hb|Hb].
+  - (* a separator still fits *)
+    assert (Hfit : (length sep <= length t)%nat) by (unfold zlen in Hb; lia).
+    rewrite tsh_sub_mid by (unfold zlen; lia).
+    replace (Z.to_nat (Z.of_nat e + zlen sep - Z.of_nat e)) with (length sep) by (unfold zlen; lia).
+    rewrite Nat2Z.id, Ht. rewrite <- has_prefix_firstn. cbv iota beta.
+    destruct t as [|c r]; [cbn [length] in Hfit; lia|].
+    destruct (has_prefix sep (c :: r)) eqn:E.
+    + ztest (zlen sep =? 0)%Z false.
+      rewrite tsh_sub_mid by (unfold zlen; lia).
+      replace (Z.to_nat (Z.of_nat e - Z.of_nat a)) with (e - a)%nat by lia. rewrite Nat2Z.id.
+      cbv iota beta. rewrite slice_set_append. cbv iota beta.
+      set (u := firstn (e - a) (skipn a s)) in *.
+      replace (Z.of_nat e + zlen sep)%Z with (Z.of_nat (e + length sep)) by (unfold zlen; lia).
+      replace (Z.of_nat (length elems) + 1)%Z with (Z.of_nat (length (elems ++ [u])))
+        by (rewrite app_length; cbn [length]; lia).
+      assert (Hrl : length (skipn (length sep) (c :: r)) = (length (c :: r) - length sep)%nat)
+        by apply skipn_length.
+      destruct (IH (e + length sep)%nat (e + length sep)%nat (elems ++ [u]) (skipn (length sep) (c :: r)))
+        as [a' [elems' [L1 [L2 L3]]]].
+      { rewrite <- Ht. apply eq_sym, skipn_skipn_add. } { lia. } { lia. } { lia. }
+      exists a', elems'. split; [exact L1|]. split; [exact L2|]. rewrite L3.
+      rewrite Nat.sub_diag. cbn [firstn].
+      rewrite <- (split_unfold sep _ Hne).
+      unfold tailsplit at 1. rewrite (find_first_match _ _ E). rewrite app_nil_r.
+      rewrite <- app_assoc. reflexivity.
+    + destruct (skipn_cons_inv _ _ _ _ Ht) as [Ht' Hlt].
+      replace (Z.of_nat e + 1)%Z with (Z.of_nat (S e)) by lia.
+      destruct (IH (S e) a elems r Ht') as [a' [elems' [L1 [L2 L3]]]].
+      { lia. } { lia. } { cbn [length] in Hf. lia. }
+      exists a', elems'. split; [exact L1|]. split; [exact L2|]. rewrite L3. f_equal.
+      replace (S e - a)%nat with (S (e - a)) by lia.
+      assert (Hsk : skipn (e - a) (skipn a s) = c :: r).
+      { rewrite skipn_skipn_add. replace (a + (e - a))%nat with e by lia. exact Ht. }
+      rewrite (firstn_S_skipn _ _ _ _ Hsk).
+      unfold tailsplit. rewrite (find_first_skip _ _ _ E).
+      destruct (find_first sep r) as [[b a0]|]; rewrite <- app_assoc; reflexivity.
+  - (* no separator fits any more *)
+    exists a, elems. split; [reflexivity|]. split; [lia|].
+    unfold tailsplit. rewrite find_first_short by (unfold zlen in Hb; lia).
+    rewrite Hu. reflexivity.
+Qed.
+
+Theorem lib_split_correct s sep :
+  lib_split s sep = Some (go_split s sep).
+Proof.
+  unfold lib_split, go_split. cbv zeta.
+  destruct sep as [|d p].
+  - (* sep = "" *)
+    change (zlen []) with 0%Z. change (0 >? 0)%Z with false. rewrite orb_false_r.
+    destruct (Nat.eq_dec (length s) 0) as [Hz|Hnz].
+    { apply length_zero_iff_nil in Hz. subst s. reflexivity. }
+    ztest (zlen s >? 0)%Z true. rewrite Z.sub_0_r.
+    destruct (split_loop_empty s s 0 (S (S (length s))) [] eq_refl) as [st [ei L]];
+      [lia|lia|reflexivity|].
+    change (Z.of_nat 0) with 0%Z in L. rewrite L. reflexivity.
+  - (* sep <> "" *)
+    assert (Hne : d :: p <> []) by discriminate.
+    ztest (zlen (d :: p) >? 0)%Z true. rewrite orb_true_r.
+    destruct (Nat.eq_dec (length s) 0) as [Hz|Hnz].
+    + (* s = "": the loop looks once at position 0 *)
+      apply length_zero_iff_nil in Hz. subst s.
+      change (zlen []) with 0%Z. change (0 >? 0)%Z with false. cbv iota.
+      cbn [length split_loop]. change (0 <=? 0)%Z with true. cbv iota.
+      rewrite tsh_sub_mid by (unfold zlen; cbn [length]; lia).
+      cbn [skipn]. rewrite firstn_nil. cbv iota beta. cbn [beq].
+      change (0 + 1 <=? 0)%Z with false. cbv iota beta.
+      reflexivity.
+    + ztest (zlen s >? 0)%Z true.
+      destruct (split_loop_nonempty s (d :: p) Hne (S (S (length s))) 0 0 [] s eq_refl)
+        as [a' [elems' [L1 [L2 L3]]]]; [lia|lia|lia|].
+      change (Z.of_nat 0) with 0%Z in L1. change (Z.of_nat (length (@nil bytes))) with 0%Z in L1.
+      rewrite L1. cbv iota beta.
+      rewrite tsh_sub_from by (unfold zlen; lia). rewrite Nat2Z.id. cbv iota beta.
+      rewrite slice_set_append. cbv iota beta. f_equal. refine (eq_trans L3 _). cbn [app Nat.sub firstn].
+      rewrite <- (split_unfold (d :: p) s Hne). reflexivity.
+Qed.
+
+(* ------------------------------------------------------------------ *)
+(* Concrete evaluations of both sides (the right-hand values are what the
+   real Go functions print for these arguments) *)
+
+Example ex_index :
+  lib_index (bs "chicken") (bs "ken") = Some 4%Z /\ go_index (bs "chicken") (bs "ken") = 4%Z /\
+  lib_index (bs "ab") (bs "bc") = Some (-1)%Z /\ go_index (bs "ab") (bs "bc") = (-1)%Z /\
+  lib_index [] [] = Some 0%Z /\ go_index [] [] = 0%Z.
+Proof. vm_compute. repeat split; reflexivity. Qed.
+
+Example ex_contains :
+  lib_contains (bs "seafood") (bs "foo") = Some true /\ go_contains (bs "seafood") (bs "foo") = true /\
+  lib_contains (bs "seafood") (bs "bar") = Some false /\ go_contains (bs "seafood") (bs "bar") = false /\
+  lib_contains [] [] = Some true /\ go_contains [] [] = true.
+Proof. vm_compute. repeat split; reflexivity. Qed.
+
+Example ex_join :
+  lib_join [bs "foo"; bs "bar"; bs "baz"] (bs ", ") = Some (bs "foo, bar, baz") /\
+  go_join [bs "foo"; bs "bar"; bs "baz"] (bs ", ") = bs "foo, bar, baz" /\
+  lib_join [] (bs ",") = Some [] /\ go_join [] (bs ",") = [].
+Proof. vm_compute. repeat split; reflexivity. Qed.
+
+Example ex_has_prefix :
+  lib_has_prefix (bs "Gopher") (bs "Go") = Some true /\ go_has_prefix (bs "Gopher") (bs "Go") = true /\
+  lib_has_prefix (bs "Gopher") (bs "C") = Some false /\ go_has_prefix (bs "Gopher") (bs "C") = false /\
+  lib_has_prefix (bs "Go") (bs "Gopher") = Some false /\ go_has_prefix (bs "Go") (bs "Gopher") = false.
+Proof. vm_compute. repeat split; reflexivity. Qed.
+
+Example ex_has_suffix :
+  lib_has_suffix (bs "Amigo") (bs "go") = Some true /\ go_has_suffix (bs "Amigo") (bs "go") = true /\
+  lib_has_suffix (bs "Amigo") (bs "Ami") = Some false /\ go_has_suffix (bs "Amigo") (bs "Ami") = false /\
+  lib_has_suffix (bs "Amigo") [] = Some true /\ go_has_suffix (bs "Amigo") [] = true.
+Proof. vm_compute. repeat split; reflexivity. Qed.
+
+Example ex_count :
+  lib_count (bs "cheese") (bs "e") = Some 3%Z /\ go_count (bs "cheese") (bs "e") = 3%Z /\
+  lib_count (bs "five") [] = Some 5%Z /\ go_count (bs "five") [] = 5%Z /\
+  lib_count (bs "aaaaa") (bs "aa") = Some 2%Z /\ go_count (bs "aaaaa") (bs "aa") = 2%Z.
+Proof. vm_compute. repeat split; reflexivity. Qed.
+
+Example ex_split :
+  lib_split (bs "a,b,c") (bs ",") = Some [bs "a"; bs "b"; bs "c"] /\
+  go_split (bs "a,b,c") (bs ",") = [bs "a"; bs "b"; bs "c"] /\
+  lib_split (bs "a man a plan a canal panama") (bs "a ") =
+    Some [[]; bs "man "; bs "plan "; bs "canal panama"] /\
+  go_split (bs "a man a plan a canal panama") (bs "a ") =
+    [[]; bs "man "; bs "plan "; bs "canal panama"] /\
+  lib_split (bs " xyz ") [] = Some [bs " "; bs "x"; bs "y"; bs "z"; bs " "] /\
+  go_split (bs " xyz ") [] = [bs " "; bs "x"; bs "y"; bs "z"; bs " "] /\
+  lib_split [] (bs "Bernardo O'Higgins") = Some [[]] /\ go_split [] (bs "Bernardo O'Higgins") = [[]] /\
+  lib_split (bs "abab") (bs "ab") = Some [[]; []; []] /\ go_split (bs "abab") (bs "ab") = [[]; []; []] /\
+  lib_split [] [] = Some [] /\ go_split [] [] = [].
+Proof. vm_compute. repeat split; reflexivity. Qed.
+
+Example ex_repeat :
+  lib_repeat (bs "na") 2 = Some (bs "nana") /\ go_repeat (bs "na") 2 = bs "nana" /\
+  lib_repeat (bs "na") 0 = Some [] /\ go_repeat (bs "na") 0 = [].
+Proof. vm_compute. repeat split; reflexivity. Qed.
+
+Example ex_replace :
+  lib_replace (bs "oink oink oink") (bs "k") (bs "ky") 2 = Some (bs "oinky oinky oink") /\
+  go_replace (bs "oink oink oink") (bs "k") (bs "ky") 2 = bs "oinky oinky oink" /\
+  lib_replace (bs "oink oink oink") (bs "oink") (bs "moo") (-1) = Some (bs "moo moo moo") /\
+  go_replace (bs "oink oink oink") (bs "oink") (bs "moo") (-1) = bs "moo moo moo" /\
+  lib_replace (bs "ab") [] (bs "-") (-1) = Some (bs "-a-b-") /\ go_replace (bs "ab") [] (bs "-") (-1) = bs "-a-b-" /\
+  lib_replace (bs "ab") [] (bs "-") 2 = Some (bs "-a-b") /\ go_replace (bs "ab") [] (bs "-") 2 = bs "-a-b" /\
+  lib_replace (bs "ab") [] (bs "-") 0 = Some (bs "ab") /\ go_replace (bs "ab") [] (bs "-") 0 = bs "ab" /\
+  lib_replace (bs "aaaa") (bs "aa") (bs "b") (-1) = Some (bs "bb") /\ go_replace (bs "aaaa") (bs "aa") (bs "b") (-1) = bs "bb".
+Proof. vm_compute. repeat split; reflexivity. Qed.
+
+Example ex_replace_all :
+  lib_replace_all (bs "oink oink oink") (bs "oink") (bs "moo") = Some (bs "moo moo moo") /\
+  go_replace_all (bs "oink oink oink") (bs "oink") (bs "moo") = bs "moo moo moo".
+Proof. vm_compute. repeat split; reflexivity. Qed.
+
+Example ex_cut :
+  lib_cut (bs "Gopher") (bs "ph") = Some (bs "Go", bs "er", true) /\ go_cut (bs "Gopher") (bs "ph") = (bs "Go", bs "er", true) /\
+  lib_cut (bs "Gopher") (bs "Badger") = Some (bs "Gopher", [], false) /\ go_cut (bs "Gopher") (bs "Badger") = (bs "Gopher", [], false) /\
+  lib_cut [] [] = Some ([], [], true) /\ go_cut [] [] = ([], [], true).
+Proof. vm_compute. repeat split; reflexivity. Qed.
+
+Example ex_cut_prefix :
+  lib_cut_prefix (bs "Gopher") (bs "Go") = Some (bs "pher", true) /\ go_cut_prefix (bs "Gopher") (bs "Go") = (bs "pher", true) /\
+  lib_cut_prefix (bs "Gopher") (bs "ph") = Some (bs "Gopher", false) /\ go_cut_prefix (bs "Gopher") (bs "ph") = (bs "Gopher", false).
+Proof. vm_compute. repeat split; reflexivity. Qed.
+
+Example ex_cut_suffix :
+  lib_cut_suffix (bs "Gopher") (bs "er") = Some (bs "Goph", true) /\ go_cut_suffix (bs "Gopher") (bs "er") = (bs "Goph", true) /\
+  lib_cut_suffix (bs "Gopher") (bs "Go") = Some (bs "Gopher", false) /\ go_cut_suffix (bs "Gopher") (bs "Go") = (bs "Gopher", false).
+Proof. vm_compute. repeat split; reflexivity. Qed.
+
+Example ex_trim_prefix_suffix :
+  lib_trim_prefix (bs "xxhixx") (bs "xx") = Some (bs "hixx") /\ go_trim_prefix (bs "xxhixx") (bs "xx") = bs "hixx" /\
+  lib_trim_suffix (bs "xxhixx") (bs "xx") = Some (bs "xxhi") /\ go_trim_suffix (bs "xxhixx") (bs "xx") = bs "xxhi".
+Proof. vm_compute. repeat split; reflexivity. Qed.
+
+Example ex_trim :
+  lib_trim_left (bs "!!Hello, Gophers!!") (bs "!") = Some (bs "Hello, Gophers!!") /\
+  go_trim_left (bs "!!Hello, Gophers!!") (bs "!") = bs "Hello, Gophers!!" /\
+  lib_trim_right (bs "!!Hello, Gophers!!") (bs "!") = Some (bs "!!Hello, Gophers") /\
+  go_trim_right (bs "!!Hello, Gophers!!") (bs "!") = bs "!!Hello, Gophers" /\
+  lib_trim (bs "abcba") (bs "ba") = Some (bs "c") /\ go_trim (bs "abcba") (bs "ba") = bs "c" /\
+  lib_trim_space [32; 9; 10; 72; 105; 32; 33; 13; 10; 11; 12] = Some [72; 105; 32; 33] /\
+  go_trim_space [32; 9; 10; 72; 105; 32; 33; 13; 10; 11; 12] = [72; 105; 32; 33].
+Proof. vm_compute. repeat split; reflexivity. Qed.
+
+(* ------------------------------------------------------------------ *)
+Print Assumptions lib_index_correct.
+Print Assumptions lib_contains_correct.
+Print Assumptions lib_join_correct.
+Print Assumptions lib_has_prefix_correct.
+Print Assumptions lib_has_suffix_correct.
+Print Assumptions lib_count_correct.
+Print Assumptions lib_split_correct.
+Print Assumptions lib_repeat_correct.
+Print Assumptions lib_replace_correct.
+Print Assumptions lib_replace_all_correct.
+Print Assumptions lib_cut_correct.
+Print Assumptions lib_cut_prefix_correct.
+Print Assumptions lib_cut_suffix_correct.
+Print Assumptions lib_trim_prefix_correct.
+Print Assumptions lib_trim_suffix_correct.
+Print Assumptions lib_trim_left_correct.
+Print Assumptions lib_trim_right_correct.
+Print Assumptions lib_trim_correct.
+Print Assumptions lib_trim_space_correct.
